@@ -55,7 +55,7 @@ def check_method_coverage(ck, binpath, rows):
     if rc != 0:
         ck.tie_broken("harness c25 methods failed", err[-1000:])
         return
-    m = json.loads(out.strip().splitlines()[-1])
+    m = json.loads(jlines(out)[-1])
     have = set(m["position"]) | set(m["range"])
     missing = []
     for t, h, kind in rows:
@@ -85,7 +85,7 @@ def correspondence(ck, binpath, ndocs, maxpos):
     if rc != 0:
         ck.tie_broken("harness c25 corr failed (rc=%s)" % rc, err[-2000:])
         return
-    cases = [json.loads(l) for l in out.splitlines() if l.strip().startswith("{")]
+    cases = [json.loads(l) for l in jlines(out) if l.strip().startswith("{")]
     terms, kept = [], []
     for c in cases:
         t = case_to_coq(c)
@@ -123,7 +123,7 @@ def search(ck, binpath, ndocs, maxpos, size):
     if rc != 0:
         ck.tie_broken("harness c25 search failed (rc=%s)" % rc, err[-2000:])
         return
-    for l in out.splitlines():
+    for l in jlines(out):
         if not l.strip().startswith("{"):
             continue
         v = json.loads(l)
@@ -146,7 +146,7 @@ def replay(ck, binpath, path):
         rc, out, err = ck.run_bin(binpath, ["one", "--text-json", json.dumps(c.get("text", "")), "--method", c["method"],
                                             "--line", c.get("line", 0), "--character", c.get("character", 0),
                                             "--line2", c.get("line2", c.get("line", 0)), "--character2", c.get("character2", c.get("character", 0))], timeout=300)
-        for l in out.splitlines():
+        for l in jlines(out):
             if l.strip().startswith("{"):
                 r = json.loads(l)
                 if not r.get("responded") or not r.get("alive"):
